@@ -201,7 +201,15 @@ def work(t):
         sk = vsum(R.s_mul(R.s_mul(V[i, c], R.s_add(l[c], ridge)), V[j, c]) for c in range(k) if c < kk) if act(i) and act(j) else Fraction(0)
         gg = vsum(R.s_mul(Rm[i, c], Rm[j, c]) for c in range(d) if act(c)) if act(i) and act(j) else Fraction(0)
         cov[i, j] = R.s_add(R.s_mul(b, sk), gg)
-    P.equal(f'{tag}|F1 svd input M satisfies M M^T = b V diag(l + ridge) V^T + R R^T (masked to the unpadded block)', mmT(rec['a']), cov, pre + facts)
+    MMt = mmT(rec['a'])
+    if k >= 2:
+      # entry by entry: one big conjunction with several sqrt terms is `unknown`, each entry is immediate
+      for i in range(d):
+        for j in range(i, d):
+          P.equal(f'{tag}|F1 svd input M satisfies (M M^T)[{i},{j}] = (b V diag(l + ridge) V^T + R R^T)[{i},{j}] (masked to the unpadded block)',
+                  MMt[i:i + 1, j], cov[i:i + 1, j], pre + facts)
+    else:
+      P.equal(f'{tag}|F1 svd input M satisfies M M^T = b V diag(l + ridge) V^T + R R^T (masked to the unpadded block)', MMt, cov, pre + facts)
     c = s[k]
     new_l = val_[-k:, -1]
     new_tail = val_[1, -1]
